@@ -116,10 +116,16 @@ def write_replay(pid, unit, f, r, witness=None):
     return path
 
 
-def calls_uncontracted_helper(r, f):
+def calls_uncontracted_helper(r, f, base_unit=None):
     """name of a function that the failing function now calls and that is new to the unit (sliced automatically because
     the changed code refers to it, hence without a contract): the failed proof is then no evidence of a violation"""
-    names = getattr(r, 'autosliced_fns', [])
+    names = list(getattr(r, 'autosliced_fns', []))
+    bfns = set((base_unit or {}).get('functions', []))
+    if bfns:
+        # functions of the unit's source files that did not exist on the pinned tree (picked up by a name pattern of the unit)
+        for x in r.fns:
+            if x['key'] not in bfns and not x.get('contract'):
+                names.append(x['key'].split(':: fn ')[-1].split('fn ')[-1].split(' ')[0])
     if not names or not getattr(r, 'gen_path', None):
         return None
     try:
@@ -147,7 +153,7 @@ def lost_proof_support(r, f, base_unit=None):
     if nb is not None and nn is not None and nn > nb:
         out.append('the function now contains %d closure expression(s), %d on the pinned tree: the new one has no contract' % (nn, nb))
     for x in getattr(r, 'relaxed', []):
-        if x.startswith(f['fn'] + ':') and any(k in x for k in ('skipped', 'dropped', 'moved to loop', 'header is', 'not found')):
+        if x.startswith(f['fn'] + ':') and any(k in x for k in ('skipped', 'dropped', 'moved to loop', 'header is', 'not found', 'approximately')):
             out.append(x[len(f['fn']) + 1:].strip())
     return out
 
@@ -223,7 +229,7 @@ def run_property(pid, tier, seed):
                 # a failed proof is then expected even if the code is right; without a failing input it is undecided, not an alarm
                 undecided.append((u, 'obligation %s of %s fails, but ghost support of that function could not be placed on the changed text (%s) and no failing input was found' % (f['obligation'], f['fn'], '; '.join(lost)[:300])))
                 continue
-            helper = calls_uncontracted_helper(results[u], f)
+            helper = calls_uncontracted_helper(results[u], f, base.get(u, {}))
             if helper and w is None:
                 # modular proof impossible (callee without contract) and no failing input on the real code: undecided, not an alarm
                 undecided.append((u, 'obligation %s of %s fails, but the function now calls `%s`, which is new and has no contract, and no failing input was found' % (f['obligation'], f['fn'], helper)))
